@@ -378,6 +378,14 @@ class Executor:
         if m:
             ty = "u16" if m.group(2) == "LEN" else "usize"
             return Sym(z3.BitVec("%s_%s" % (m.group(1), m.group(2)), INT_W[ty]), ty)
+        m = re.match(r"^(?:core::num::<impl )?([iu](?:8|16|32|64|128|size))>?::(MIN|MAX)$", s)
+        if m and m.group(1) in INT_W:
+            ty, w = m.group(1), INT_W[m.group(1)]
+            if ty.startswith("u"):
+                v = 0 if m.group(2) == "MIN" else (1 << w) - 1
+            else:
+                v = (1 << (w - 1)) if m.group(2) == "MIN" else (1 << (w - 1)) - 1
+            return Sym(z3.BitVecVal(v, w), ty)
         nc = self.lookup_named_const(s, st)
         if nc is not None:
             return nc
@@ -1219,6 +1227,24 @@ class Executor:
                     return self.finish_call(st, frame, t, [(fut, None)], ret_bb)
                 st.events.append(("run_closure", cname, None, None))
                 return self.finish_call(st, frame, t, _S.call_value(self, st, frame, args[0], [], t.dest, ret_bb), ret_bb)
+            # frame assumptions: an opaque crate callee is assumed not to modify the state the obligation's claims talk
+            # about.  That assumption is made per obligation for an explicit list of callees (frame_assumptions.json);
+            # any other crate callee reaching this point (a new helper, a call that was not there) is executed instead.
+            seen = getattr(self, "opaque_seen", None)
+            if seen is not None:
+                seen.add(cname)
+            exp = getattr(self, "opaque_expected", None)
+            if exp is not None and cname not in exp:
+                depth = sum(1 for f in st.frames if getattr(f, "auto", False))
+                if depth >= 3 or ret_bb is None:
+                    raise Unsupported("crate callee %s is not among this obligation's frame assumptions and cannot be inlined (depth %d)" % (cname[:80], depth))
+                self.stats["calls_inlined"]["auto:" + cname] = self.stats["calls_inlined"].get("auto:" + cname, 0) + 1
+                if not hasattr(self, "auto_inlined"):
+                    self.auto_inlined = set()
+                self.auto_inlined.add(body.name)
+                self.push_frame(st, body, args, t.dest, ret_bb)
+                st.frames[-1].auto = True
+                return None
             self.stats["calls_havoc"][cname] = self.stats["calls_havoc"].get(cname, 0) + 1
             rt = body.ret_ty
             if "{async fn body" in rt or "{async block" in rt or "dyn futures::Future" in rt or "dyn Future" in rt \
